@@ -167,6 +167,24 @@ def run_chunk(prop, seed, n_ops, workdir, replay=None, driver_args=(), rtol=1e-1
     compared, unmodelled, dis, stopped = compare_streams(ops, impl, model, rtol, set(res["report"].get("skip_compare", [])))
     res.update({"compared": compared, "unmodelled": unmodelled, "disagreement": dis,
                 "stopped_at": stopped, "n_ops": len(ops)})
+    if dis and not replay and os.environ.get("VERIF_FOCUS_OP") is None:
+        # failing-input search at the point where model and implementation part: the same deterministic
+        # generation is repeated with the property's own oracle forced onto that op (modules that know
+        # how look at VERIF_FOCUS_OP); what it finds is added to the chunk's oracle failures
+        env = dict(os.environ, VERIF_FOCUS_OP=str(dis[0]))
+        fdir = workdir + "-focus"
+        os.makedirs(fdir, exist_ok=True)
+        cmd2 = [PY] + list(py_flags) + [os.path.join(HERE, "runner.py"), prop, str(seed), str(n_ops), fdir]
+        try:
+            p2 = subprocess.run(cmd2, env=env, stdout=subprocess.PIPE, stderr=subprocess.STDOUT, timeout=3000)
+            if p2.returncode == 0:
+                rep2 = json.load(open(os.path.join(fdir, "report.json"), encoding="utf-8"))
+                seen = {json.dumps(f, sort_keys=True, default=str) for f in res["report"]["failures"]}
+                for f in rep2["failures"]:
+                    if f.get("focus") and json.dumps(f, sort_keys=True, default=str) not in seen:
+                        res["report"]["failures"].append(f)
+        except Exception:  # noqa: BLE001
+            pass
     return res
 
 
@@ -366,10 +384,17 @@ def main():
             errs[k] = errs.get(k, 0) + v
         if len(samples) < 6:
             samples += rep["samples"][:2]
+        dis_idx = ch["disagreement"][0] if ch["disagreement"] else None
         for f in rep["failures"]:
             f["seed"] = ch["seed"]
             f["ops_file"] = os.path.join(ch["workdir"], "ops.txt")
             k = match_known(f, known)
+            if k and dis_idx is not None and f.get("op_index") == dis_idx:
+                # a recorded finding is behaviour the model reproduces; where the implementation ALSO parts from
+                # the model at this very op, the record does not explain what happened here
+                f["note"] = "matches the class of known finding %s but the model of the recorded behaviour answers `%s`" % (
+                    k["id"], ch["disagreement"][3])
+                k = None
             if k:
                 known_hits.setdefault(k["id"], []).append(f)
             else:
